@@ -7,7 +7,7 @@ from ..layout import LayoutEngine, Undecided, _WState, normalise, fmt_info
 from ..table import Tracer
 from ..resolve import Resolver
 from ..escape import Escape, rule_entry, enclosing_if
-from ..rules import canon_guard
+from ..rules import canon_guard, canon_text, equiv, equiv_folded
 from .. import common, spec, flow
 from . import c06, c20
 
@@ -417,7 +417,7 @@ def rule_predicates(ctx, repo):
     # is_witness_scriptpubkey: length window and the size equation
     fi = repo.lookup_method(ci, 'is_witness_scriptpubkey')
     guards = [canon_guard(n.test, repo, fi.module, ci) for n in walk_no_nested(fi.node) if isinstance(n, ast.If)]
-    ok = 'size < 4 or size > 42' in guards and 'head[1] + 2 != size' in guards and 'not CScriptOp(head[0]).is_small_int()' in guards
+    ok = 'size < 4 or size > 42' in guards and canon_text('head[1] + 2 != size') in guards and 'not CScriptOp(head[0]).is_small_int()' in guards
     r.check(ok, 'is_witness_scriptpubkey', fi.site, '4..42 bytes, version opcode small int, push length + 2 == size', 'is_witness_scriptpubkey guards are %s' % guards)
     r.note('is_witness_scriptpubkey reads its two header bytes through struct format <bb (signed): version opcodes are below 0x80, so the sign does not matter; the byte conditions themselves are not decided')
     # witness_version
